@@ -601,7 +601,7 @@ def c08(ctx):
     first = None
     for ukt, rkt, h, ml in runs:
         _, summ = ctx.tlc_pipe("MC_Client.tla", "MC_Client.cfg", ["client-replay", "-ukt", ukt, "-rkt", rkt, "-h", str(h)],
-                               overrides={"MaxLen": ml}, timeout=3000,
+                               overrides={"MaxLen": ml, "RepeatRecover": "FALSE" if ctx.tier == "quick" else "TRUE"}, timeout=3000,
                                label="lifecycles <= %d steps, update keys %s, recovery keys %s, SHA-%d" % (ml, ukt, rkt, h))
         first = first or summ["_first_edge"]
 
@@ -610,6 +610,20 @@ def c08(ctx):
         rec["step"]["refused"] = ""
 
     ctx.negctl_replay(["client-replay"], first, wrong)
+
+    # the other direction: random lifecycles of up to 24 steps (key types and algorithms rotating from history to
+    # history) run on the real builders / parser / applier, judged step by step by TLC (ClientTrace.tla)
+    def corrupt_life(ev):
+        if ev.get("event") not in ("update", "recover", "create"):
+            return None
+        ev = json.loads(json.dumps(ev))
+        ev["post"]["upd"] = ev["post"]["upd"] + 1
+        return ev
+
+    n = 60 if ctx.tier == "quick" else 1500
+    validate_trace(ctx, "client", ["-n", str(n), "-steps", "24"], "ClientTrace.tla", "ClientTrace.cfg", "client_trace.ndjson",
+                   histories=n, corrupt=corrupt_life,
+                   key_of=lambda ev: "%s:%s:%s:%s" % (ev.get("event"), ev.get("win"), ev.get("alg"), ev.get("bad", "")[:60]))
 
 
 # ---------------------------------------------------------------------------------------------
